@@ -199,8 +199,9 @@ ChkFont(e) ==
       glyph_width_pdf |-> wj => \A i \in 1..n : Near(e.q_gwpdf[i], WidthMicro(N, D, e.wq[i])),
       widths_pdf    |-> Len(e.q_wpdf) = n /\ (wj => \A i \in 1..n : Near(e.q_wpdf[i], WidthMicro(N, D, e.wq[i]))),
       widths_map_pdf |-> (wj /\ e.has_wmap) => \A i \in 1..n : Near(e.q_wmap[i], WidthMicro(N, D, e.wq[i])),
-      \* whatever the matrix: the two width queries agree with each other (1000 glyph space units = 1 text space unit)
-      widths_pdf_agree |-> (N[2] * N[3] = 0 /\ Len(e.q_wpdf) = n) => \A i \in 1..n : Near(e.q_wpdf[i], e.q_gwpdf[i]),
+      \* whatever the matrix (when the harness could state it: fm_known; an unknown matrix is logged as all zeros and
+      \* must not pass for one without rotation part): the two width queries agree with each other
+      widths_pdf_agree |-> (e.fm_known /\ N[2] * N[3] = 0 /\ Len(e.q_wpdf) = n) => \A i \in 1..n : Near(e.q_wpdf[i], e.q_gwpdf[i]),
       \* glyph and font boxes in PDF units
       glyph_bbox_pdf |-> \A i \in 1..n :
                            /\ e.npts[i] = 0 => e.q_boxpdf[i] = Zero4
